@@ -3,7 +3,7 @@
 import json, os
 V = '/verif'
 props = [json.loads(l) for l in open(f'{V}/properties.jsonl')]
-RESIDUE_NOTE = "Trusted base: rustc's type checker and MIR construction (nightly, same sources cargo builds), the vdrv fact exporter, std/external callees named in the evidence file's trusted_base. Decides the clauses listed in DESIGN.md §5 for this property, not the residue listed there and in evidence.coverage.not_decided."
+RESIDUE_NOTE = "Trusted base: rustc's type checker and MIR construction (nightly, same sources cargo builds), the vdrv fact exporter, std/external callees named in the evidence file's trusted_base. Decides the clauses listed in DESIGN.md §5 (as amended by §12) for this property, not the residue listed there and in evidence.coverage.not_decided. The rules run on the program with private helper functions spliced into their callers (MIR level) and decide path conditions by a path-sensitive propagation of one predicate at a time, so they are insensitive to helper extraction/inlining, private renames and the common control-flow spellings (DESIGN.md §12.2); the benign-refactoring corpus under /verif/benign and the seeded breaking changes under /verif/seeded are replayed by the thorough tier."
 CLAIMED = {
  "C01": ("precedence/save-restore/forwarding rules over MIR (dominance, switch-edge gates, provenance) + compile-fail witnesses + macro-expansion witness analysed by the same driver",
          "Every path of with_recorder, LocalRecorderGuard::{new,drop}, with_local_recorder and of all 81 macro arm expansions is decided; type-level witnesses quantify over all programs of their shape. The unsound set_default_local_recorder histories (FIFO drop, mem::forget) are reported as known findings F1a/F1b."),
